@@ -13,18 +13,34 @@ def sh(cmd, cwd, timeout=900):
     except subprocess.TimeoutExpired:
         return 124, "TIMEOUT"
 
+def reap(wt):
+    """kill job processes leaked by a demo / suite run of this worktree (matched through /proc, never through a shell pattern)"""
+    import signal
+    pat = str(wt / '_tmp')
+    for d in os.listdir('/proc'):
+        if d.isdigit() and int(d) != os.getpid():
+            try:
+                cl = open(f'/proc/{d}/cmdline', 'rb').read().decode(errors='ignore')
+                if pat in cl and 'confirm_seeds' not in cl:
+                    os.kill(int(d), signal.SIGKILL)
+            except Exception:
+                pass
+
+
 for pid in sys.argv[1:]:
     wt = Path(f'/tmp/wt/{pid}')
     for ch in sorted((wt / '_seed').glob('change*')):
         meta = json.loads((ch / 'meta.json').read_text())
         cmd = meta['demo_cmd']
-        for cut in (' ; echo exit', '   (then', ' (then:'):
+        for cut in (' ; echo exit', '   (', ' (then', ' ; pkill', ';pkill'):
             if cut in cmd:
                 cmd = cmd[:cmd.index(cut)]
+        (wt / '_tmp').mkdir(exist_ok=True)
         sh('git checkout -q -- src', wt)
         rc_clean, out_clean = sh(cmd, wt, 300)
         rc_apply, out_apply = sh(f'git apply {ch}/patch.diff', wt)
         rc_pat, out_pat = sh(cmd, wt, 300)
+        reap(wt)
         junit = f'/tmp/wt/_junit_{pid}_{ch.name}.xml'
         rc_suite, out_suite = sh(f'PYTHONPATH={wt}/src /venv/bin/python -m pytest -q -p no:cacheprovider --timeout=900 --continue-on-collection-errors --junitxml={junit}', wt, 1200)
         missing = None
